@@ -9,6 +9,11 @@
 #   conc  multisets of jobs on 1..16 threads, shared scanner or clones; every job's result must equal the result
 #         of running it alone (oracle of the same binary, computed before and after), and the verdicts known by
 #         construction (planted strings, python re / hashlib)                                        [exploration]
+#   seq   sequences of DIFFERENT inputs on one scanner (inputs decided without the string scan mixed with inputs that
+#         need it, default parameters; many large inputs thrashing the validators' lazy-DFA caches); every scan —
+#         on the scanner, on a clone made before the sequence (other thread), on a clone made after, and once more
+#         at the end — must give the FULL result (match details included) of a scanner compiled for that scan alone
+#                                                                                                    [exploration]
 import hashlib, json, os, re
 from .. import core
 from ..core import gN, gZ, gbool, glist, gbytes, gopt, gpair, gstr
@@ -125,8 +130,12 @@ class C13(Prop):
             "wide, fullword, regexes with `wide` + \\b/\\B (hand-stepped wide DFA walk), greedy and non-greedy atomized "
             "regexes (reverse/forward lazy-DFA validators), raw regexes, `matches` in conditions, counts, rule "
             "references, external symbols, hash.* over ranges "
-            "planted from other jobs' inputs, pe/elf/macho on small assets.  Non-trivial: hist with a clone and a "
-            "state-changing operation; hash with a repeated range; conc with >= 2 threads; distinct by content.")
+            "planted from other jobs' inputs, pe/elf/macho on small assets; oracle on a separately compiled scanner.  "
+            "seq: 6-15 scans of 3-7 inputs (small inputs decided by filesize alone but holding strings a full scan "
+            "would report, big inputs needing the scan; default parameters 3 times out of 4), or 30-45 different "
+            "2.8-3.8 KB inputs for /xy[ab]*a[ab]{17..19}c/ (thousands of unshared DFA states each); every result "
+            "compared, match details included, with a scanner compiled for that scan alone.  Non-trivial: hist with a clone and a "
+            "state-changing operation; hash with a repeated range; conc with >= 2 threads; seq with >= 2 different inputs; distinct by content.")
     TRUSTED = ["Coq 8.16.1 kernel + vm_compute",
                "harness/src/bin/c13.rs (runs the real Scanner API; probe scans, tagged console callbacks, thread "
                "scope with barrier and seeded yields)",
@@ -145,6 +154,9 @@ class C13(Prop):
         "EXPLORATION level (conc cases): that the real scan has no other shared mutable state than those pools, and "
         "what the OS scheduler does, is only sampled: 1-16 threads with yields; a data race that needs a specific "
         "preemption point inside regex-automata or inside a module is not forced",
+        "history independence of the real scan (seq cases) is exploration too: the reference is a scanner compiled "
+        "for the one scan; state hidden in the shared Inner or in pooled caches that needs another trigger than "
+        "undecided no-scan passes or cache thrashing is not forced",
         "a scan is an abstract function of (inner, params, symbol values, module data, input) in the isolation "
         "theorems; that Scanner::scan_* passes exactly those four fields is read off scanner/mod.rs and checked by "
         "the hist cases",
@@ -454,7 +466,7 @@ class C13(Prop):
             # state-hungry regexes: the lazy-DFA cache of the validator (shared through the pool, reused from scan
             # to scan) is filled and cleared many times by inputs that share no DFA state
             k = rng.choice([17, 18, 19])
-            n = rng.choice([3000, 3500, 5000, 7000])
+            n = rng.choice([2800, 3200, 3500, 3800])        # a match longer than MAX_SPLIT_MATCH_LENGTH (4096) is not found
             ninputs = max(12, 120000 // n)
             lines = ["rule tail { strings: $r = /xy[ab]*a[ab]{%d}c/ condition: $r }" % k,
                      "rule small { condition: filesize < 100 }"]
@@ -469,12 +481,15 @@ class C13(Prop):
         lines = ['rule s0 { strings: $a = "abc" condition: filesize < 5 or $a }',
                  'rule s1 { strings: $a = "marker" $b = /m[a-z]{2}ker[0-9]?/ condition: filesize > 40 and ($a or $b) }',
                  'rule s2 { strings: $a = "abc" condition: #a > 1 or filesize == 3 }',
-                 'rule s3 { strings: $a = "xyz" condition: filesize < 10 }',
+                 'rule s3 { strings: $a = "xyz" condition: filesize < 10 or #a == 2 }',
                  'rule s4 { strings: $a = "abc" $b = "zzz" condition: $a at 0 or (filesize > 20 and $b) }',
                  'rule s5 { condition: filesize > 15 }',
                  'rule s6 { strings: $a = "abc" nocase condition: filesize < 8 or @a[1] > 3 }']
-        lines = [l for l in lines if rng.chance(4, 5)] or lines[:1]
-        small = [b"abc", b"ab", b"", b"abcd", b"xyzabc", b"ABC", b"zzz", b"abcabc"]
+        # few rules: one rule that needs the strings makes the whole no-scan pass undecided
+        keep = rng.choice([1, 1, 3, 6])
+        lines = lines[:1] + [l for l in lines[1:] if rng.chance(keep, 6)]
+        # small inputs: decided by filesize alone, but holding strings that a full scan would report
+        small = [b"abc", b"abc", b"abcd", b"xabc", b"xyzabc", b"ABC", b"abcabc", b"xyzxyz", b"ab", b"", b"zzz"]
         inputs = []
         for _ in range(rng.range(3, 7)):
             if rng.chance(1, 2):
@@ -487,7 +502,7 @@ class C13(Prop):
                 if rng.chance(1, 3):
                     body[0:0] = b"abc"
                 inputs.append(bytes(body))
-        inputs[0] = rng.choice(small)                       # at least one of each sort
+        inputs[0] = rng.choice(small[:8])                   # at least one of each sort
         inputs[1] = b"0123456789 abc 0123456789 abc" if rng.chance(1, 2) else inputs[1] + b" 0123456789 abc zzz"
         order = [0, 1, 0] + [rng.below(len(inputs)) for _ in range(rng.range(3, 12))]
         if rng.chance(1, 2):
